@@ -3,12 +3,18 @@ are tiny and are executed from the real source (inlined), not contracted."""
 from pyvc.api import inline, model
 
 model('builtin:BaseException', fields={}, external=True)
-model('__init__.ConfigurationError', fields={'message': 'str', 'url': 'Opt[str]'})
-model('__init__._ParseError', fields={'lineno': 'Opt[int]', 'colno': 'Opt[int]'})
+# lineno / colno exist only on some subclasses (and on any instance they were assigned to):
+# `has_lineno` is the presence flag (reading .lineno without it is an AttributeError).
+model('__init__.ConfigurationError',
+      fields={'message': 'str', 'url': 'Opt[str]', 'lineno': 'Opt[int]', 'colno': 'Opt[int]',
+              'has_lineno': 'bool', 'has_colno': 'bool'},
+      optional={'lineno': 'has_lineno', 'colno': 'has_colno'},
+      defaults={'has_lineno': 'False', 'has_colno': 'False'}, ghost_fields=('has_lineno', 'has_colno'))
+model('__init__._ParseError', fields={})
 model('__init__.SchemaResourceError', fields={'filename': 'Opt[str]', 'package': 'Opt[str]',
                                               'path': 'Opt[Seq[str]]'})
 model('__init__.DataConversionError', fields={'exception': 'Ref[builtin:ValueError]', 'value': 'Opaque[PyVal]',
-                                              'lineno': 'Opt[int]', 'colno': 'Opt[int]'})
+                                              })
 model('__init__.SubstitutionReplacementError', fields={'source': 'str', 'name': 'str'})
 
 inline('__init__.ConfigurationError.__init__',
